@@ -181,7 +181,7 @@ theorem step_reopen4 (hc : c.Legal) (hU : Univ c.kind U) (hI : Inv c U s spec n 
       (∀ blk k v, priGet s.m s.d blk = .got k v → priGet m' d' blk = .got k v) := by
   obtain ⟨m1, d1, m2, d2, p1, i1, hI2, hX2, hin, hpn, _, hR, hP, _, _⟩ :=
     flushBoth_inv4 hU hI hX hn hB order
-  obtain ⟨fr, hcl⟩ := storeClose_eq p1 i1
+  obtain ⟨fr, hcl, _⟩ := storeClose_eq p1 i1
   have hcfg : s.cfg = c := hX.cfg
   have hIp : PInv m2 d2 := hI2.p
   have hIi : IInv m2 d2 := hI2.i
